@@ -117,6 +117,7 @@ type runner struct {
 	conns    map[string]ngrpc.Connection
 	stepNo   int
 	notified int
+	wasLive  map[string]bool // connections that were open before the current step
 }
 
 func (r *runner) violate(kind, site, detail string) {
@@ -389,10 +390,28 @@ func (r *runner) absorb(completedActor string) {
 						t.seen[o.ID] = true
 					}
 				}
-				// live connections whose certificate the list bans are closed by the time Update returns
+				// live connections whose certificate the list bans are closed by the time Update returns; connections with
+				// nothing against them (or only a condition that soft-fail bypasses) stay open
+				mode := "hard"
+				if r.sc.Soft {
+					mode = "soft"
+				}
+				_, _, stored := r.projection()
 				for c, conn := range r.conns {
-					if has(o.Ban, c) && !ngrpc.VerifX06Closed(conn) {
+					closed := ngrpc.VerifX06Closed(conn)
+					if has(o.Ban, c) && !closed {
 						r.violate("banned-connection-open", "leaf", fmt.Sprintf("denylist %s bans %s, its connection is still open after the update", o.ID, c))
+					}
+					if closed && r.wasLive[c] {
+						rolled := false
+						for _, ep := range r.w.cat.Dps[c] {
+							if b, ok := r.best[ep]; ok && stored[ep] != b.ID {
+								rolled = true
+							}
+						}
+						if want := prescribed(r.conditions([]string{c}, r.best, &oc, r.e.now), mode); want == "ok" && !rolled {
+							r.violate("connection-closed-without-cause", mode, fmt.Sprintf("the connection of %s was closed by the revalidation after denylist %s was loaded; lists %v, clock %d", c, o.ID, r.bestIDs(), r.e.now))
+						}
 					}
 				}
 			}
@@ -527,6 +546,10 @@ const giveUp = 20 * time.Second
 func (r *runner) step(i int, s stepT) error {
 	r.stepNo = i
 	e := r.e
+	r.wasLive = map[string]bool{}
+	for _, c := range r.liveConns() {
+		r.wasLive[c] = true
+	}
 	switch s.A {
 	case "Serve":
 		e.mu.Lock()
